@@ -288,6 +288,15 @@ pub fn compare_outcome(rep: &mut Report, ctx: &J, entry: &str, exp: &J, got: &J,
 				rep.mismatch("C07.error", detail(&why));
 			}
 		}
+	} else {
+		// Lenient options relax surrogate escapes and nothing else: whether the document is rejected BECAUSE OF a surrogate
+		// escape is part of what the options decide (an escape the option relaxes must not be reported; one it does not
+		// relax must still be).  Offsets and characters of errors under lenient options are not compared.
+		let es = exp["err"]["kind"].as_str() == Some("surrogate");
+		let gs = got["err"]["kind"].as_str() == Some("surrogate");
+		if es != gs {
+			rep.mismatch("C12.error", detail(if gs { "a surrogate escape that the enabled option relaxes is reported as an error" } else { "the document is rejected for another reason than the surrogate escape the options leave strict" }));
+		}
 	}
 }
 
